@@ -80,6 +80,17 @@ CLAIMED = {
         technique="symbolic execution of the real verb/Cache/compile functions on bounded-width tables with symbolic names + z3 (inductive step)",
         note="trusted: pdtv + z3; LazyFrame model (pdtv/lfmodel.py); A-uuid (fresh uuids / generated names); bound: table width <= 3; SQL side (M3) and join/union steps pending",
     ),
+    "C09": dict(
+        category="other",
+        text="Inductive-step verification conditions (same harness as C11): for bounded-width tables with symbolic names, every single-table verb and join (inner/left/full, equality and "
+        "inequality predicates, cross join, user suffix) is executed through the real verb function, Cache.update and the real Polars / SQL compile_ast; z3 discharges that every uuid "
+        "in scope afterwards still addresses the same data token (Polars: physical column of the frame model; SQL: underlying column of sqa_expr[u]) and that new columns are computed "
+        "from pre-state data only; reference resolution (C.name -> current name, Col -> uuid, derived[col].name, foreign references rejected) is proved for symbolic names. Bounded in "
+        "table width only.",
+        design_ref="DESIGN.md §5.9",
+        technique="symbolic execution of the real verb/Cache/compile functions on bounded-width tables with symbolic names + z3 (inductive step, data-identity tokens)",
+        note="trusted: pdtv + z3; LazyFrame / SQL structural models; A-uuid; bound: table width <= 3 (joins: 2+2)",
+    ),
 }
 
 NOT_YET = "check not built yet (engine under construction); will be claimed as soon as its obligations discharge"
